@@ -82,8 +82,17 @@ def formatOK (fmt s : String) : Bool :=
   | "date" => shape "dddd-dd-dd".toList
   | "time" => shape "dd:dd:dd".toList
   | "date-time" => shape "dddd-dd-ddTdd:dd:ddZ".toList
-  | "ipv4" => !cs.isEmpty && cs.all (fun c => isDigitC c || c == '.')
-  | "ipv6" => !cs.isEmpty && cs.all (fun c => isDigitC c || c == ':' || ('a' ≤ c && c ≤ 'f'))
+  | "ipv4" =>
+      let parts := s.splitOn "."
+      parts.length == 4 && parts.all (fun p =>
+        let pc := p.toList
+        !pc.isEmpty && pc.length ≤ 3 && pc.all isDigitC && (pc.length == 1 || pc.head? != some '0') && p.toNat! ≤ 255)
+  | "ipv6" =>
+      let groups := s.splitOn ":"
+      let hex (c : Char) : Bool := isDigitC c || ('a' ≤ c && c ≤ 'f')
+      let compressed := (s.splitOn "::").length == 2
+      (s.splitOn "::").length ≤ 2 && groups.all (fun g => g.length ≤ 4 && g.toList.all hex) &&
+      (if compressed then groups.length ≤ 8 && groups.length ≥ 3 else groups.length == 8 && groups.all (· ≠ ""))
   | _ => true
 
 abbrev Defs := List (String × Schema)
